@@ -43,6 +43,8 @@ def run(ctx):
                       "nodes it walks (EOI exempt where skipped)")
     ctx.rule("R14-3", "continue / break from an `if` are forwarded as (.., true, false) / (.., false, true); both loop "
                       "drivers leave on break; loop bodies run with in_loop = true; CMD continue / break act only under in_loop")
+    ctx.rule("R14-5", "the continue / break flags returned by every nested run_exp / run_exp_if / run_exp_test_br call are "
+                      "used: forwarded in the caller's return value, or (break, in a loop driver) tested")
     ctx.rule("R14-4", "run_exp_if leaves at the first passed branch; a body runs only under test_pass; `while` calls its "
                       "head test on every iteration; `for` calls set_env(var, value) before each body run, iterating forward")
     gpath = os.path.join(ctx.root, "src", "parsers", "grammar.pest")
@@ -56,6 +58,7 @@ def run(ctx):
         table_rule(ctx, crate, g)
         flag_rules(ctx, crate)
         order_rules(ctx, crate)
+        flags_used_rule(ctx, crate)
 
 
 def anchor_rule(ctx, crate, g):
@@ -243,3 +246,45 @@ def order_rules(ctx, crate):
                                 fwd = True
         ctx.ob("R14-4", f.path, "`for` binds the variable (set_env) before each body run, iterating the list forward",
                ok and fwd, key="R14-4|%s|bind" % f.path, crate=crate.kind)
+
+
+FLAG_FIELDS = {"scripting::run_exp": (1, 2), "scripting::run_exp_if": (1, 2), "scripting::run_exp_test_br": (2, 3)}
+DRIVERS = ("scripting::run_exp_for", "scripting::run_exp_while")
+
+
+def flags_used_rule(ctx, crate):
+    n = 0
+    for b in crate.fns():
+        if not b.path.startswith("scripting::") or b.path == "scripting::run_lines":
+            continue
+        k = 0
+        for bb, t, c in b.calls():
+            if c not in FLAG_FIELDS:
+                continue
+            n += 1
+            res = b.expand_vars(strip_sites(b.call_expr(bb)))
+            need = FLAG_FIELDS[c]
+            if b.path in DRIVERS:
+                need = need[1:]          # a loop driver consumes `continue` by starting the next iteration
+            missing = []
+            for fi in need:
+                used = False
+                # tested
+                for x in sorted(b.reachable):
+                    for tgt, atom, val in b.switch_edges(x):
+                        ea = b.expand_vars(atom)
+                        if any(s_[0] == "field" and s_[1] == fi and s_[2] == res for s_ in mir.subexprs(ea)):
+                            used = True
+                # forwarded into the return value
+                for bi, si in b.defs.get(0, []):
+                    if flow.backward(b, b.def_expr(bi, si),
+                                     lambda z: z[0] == "field" and z[1] == fi and b.expand_vars(strip_sites(z[2])) == res) is not None:
+                        used = True
+                if not used:
+                    missing.append("continue" if fi == need[0] and len(need) == 2 else "break")
+            ctx.ob("R14-5", b.path, "flags of the nested %s call are forwarded / tested" % last_seg(c), not missing,
+                   key="R14-5|%s|%s#%d" % (b.path, last_seg(c), k), where=b.loc(bb), crate=crate.kind,
+                   detail=None if not missing else "the %s flag of this call is dropped: a `%s` inside that body does not "
+                                                   "reach the enclosing loop" % ("/".join(missing), "/".join(missing)))
+            k += 1
+    ctx.floor("R14-5", crate, "nested block-runner calls", n, 5)
